@@ -25,6 +25,14 @@ CHECKS = {
         note=PROOF_NOTE + "Modelled, not verified: torch/numpy slicing and torch.nn.functional.pad (pair order validated by correspondence); Fourier operators only through backward(forward(x)) = x.",
         technique="Coq proof (lia over regenerated index arithmetic, induction over tensor rank) + exact model/implementation correspondence",
         design="§6 C10"),
+    "C01": dict(
+        text="roll_one_dim / fftshift / ifftshift arithmetic is regenerated from the source on every run and proved to be the cyclic rotation by n/2 resp. (n+1)/2: mutual inverses and equal to the reference shift for every length (1, odd, even), "
+             "and in the N-d index model for every rank, shape and axis list. The operation sequences of fft2 / ifft2 are regenerated and proved to be shift-transform-shift wrapped by the layout views and mutual inverses for all 8 flag settings, given the contract of torch.fft. "
+             "The DFT itself is treated in MathComp over any field with a primitive n-th root: inversion both ways, Parseval, and centred transform = textbook shifted DFT for odd and even n, instantiated in algC for every n. "
+             "Tied by exact correspondence (shifts on iota tensors rank 1-5; centred DFT on Gaussian integers for lengths 1,2,4 evaluated in Coq) and numeric validation of the torch.fft contract (lengths 1-9, all flags, 2/3 axes at any position).",
+        note=PROOF_NOTE + "Modelled, not verified: torch.fft.fftn/ifftn (textbook N-d DFT, inverse pair), torch narrow/cat acting fibre-wise, float32 rounding (exact-arithmetic theorems only).",
+        technique="Coq proof (list rotation lemmas over regenerated index arithmetic; MathComp DFT algebra over a field with a primitive root) + exact correspondence + numeric contract validation",
+        design="§6 C01"),
     "C12": dict(
         text="Theorems for every file list, slice filter (step 1), context size and index: per-volume ranges are contiguous/ordered/partition 0..len-1, the i-th range holds exactly the admissible slices of file i in order, "
              "the context window has 2c+1 entries with entry j = slice s-c+j or a zero slice, and ConcatDataset's negative-index normalisation + bisect_right + offset lands in the member containing the index. "
